@@ -79,6 +79,9 @@ class Collector:
             self.failed.append((payload, r))
 
 
+MAX_RESTARTS = 12
+
+
 def run_check(modname: str, tier: str, seed: int, replay_path: str | None = None) -> int:
     t0 = time.time()
     os.environ.setdefault('PYTHONHASHSEED', '0')
@@ -174,13 +177,22 @@ def run_check(modname: str, tier: str, seed: int, replay_path: str | None = None
             q = _queue.Queue(maxsize=256)
             per = (spec.get('max_cases') or 0) // shards + 1
             runs = []
-            for k in range(shards):
-                sp = dict(spec, workers=1, seed=(spec.get('seed') or 0) + 7919 * k, max_cases=per, heap='1g')
-                run = TLCRun(**sp)
-                runs.append((run, sp))
+            runs_lock = threading.Lock()
 
-                def reader(run=run):
-                    try:
+            def is_overflow(run):
+                return (not run.ok and run.errors and any('verflow' in e for e in run.errors)
+                        and not any('Assert' in e or 'violated' in e for e in run.errors))
+
+            def reader(k):
+                # exact 32-bit arithmetic: an overflow ends a simulation process (it is never silent); the scenarios it emitted before are
+                # valid, and the shard goes on with a fresh seed until its share of the budget is used (at most MAX_RESTARTS times)
+                try:
+                    got = 0
+                    for attempt in range(MAX_RESTARTS + 1):
+                        sp = dict(spec, workers=1, seed=(spec.get('seed') or 0) + 7919 * k + 104729 * attempt, max_cases=per - got, heap='1g')
+                        run = TLCRun(**sp)
+                        with runs_lock:
+                            runs.append((run, sp))
                         b = []
                         for tag, payload in run.lines(tags=tags):
                             b.append(payload)
@@ -189,11 +201,15 @@ def run_check(modname: str, tier: str, seed: int, replay_path: str | None = None
                                 b = []
                         if b:
                             q.put(b)
-                    except Exception as ex:     # noqa
-                        q.put(ex)
-                    finally:
-                        q.put(None)
-                threading.Thread(target=reader, daemon=True).start()
+                        got += run.emitted
+                        if got >= per or not (is_overflow(run) or getattr(run, 'stalled', False)):
+                            break
+                except Exception as ex:     # noqa
+                    q.put(ex)
+                finally:
+                    q.put(None)
+            for k in range(shards):
+                threading.Thread(target=reader, args=(k,), daemon=True).start()
             live = shards
             while live:
                 item = q.get()
@@ -203,21 +219,20 @@ def run_check(modname: str, tier: str, seed: int, replay_path: str | None = None
                     raise item
                 else:
                     consume(item)
-            overflowed = 0
+            emitted_total = 0
             for run, sp in runs:
-                # exact 32-bit arithmetic: an overflow ends that simulation shard (it is never silent); the scenarios it emitted before are valid,
-                # the rest of its budget is reported as skipped - never as pass or violation
+                emitted_total += run.emitted
                 if getattr(run, 'stalled', False):
                     col.skipped['simulation_shard_stalled' + ('_worker_thread_died' if getattr(run, 'thread_died', None) else '')] += 1
                     run.ok = True
-                if not run.ok and run.errors and any('verflow' in e for e in run.errors) and not any('Assert' in e or 'violated' in e for e in run.errors):
-                    overflowed += 1
-                    col.skipped['simulation_shard_stopped_out_of_arithmetic_range'] += 1
+                if is_overflow(run):
+                    col.skipped['simulation_process_stopped_out_of_arithmetic_range'] += 1
                     run.ok = True
                     run.cut = True
                 finish(run, sp)
-            if overflowed > shards // 2:
-                raise MachineryError(f'{overflowed} of {shards} simulation shards stopped by arithmetic overflow')
+            if spec.get('max_cases') and emitted_total < spec['max_cases'] // 4:
+                raise MachineryError(f'simulation {spec["module"]}/{spec["cfg"]} produced only {emitted_total} of {spec["max_cases"]} scenarios '
+                                     f'({col.skipped["simulation_process_stopped_out_of_arithmetic_range"]} processes stopped by arithmetic overflow)')
         drain(0)
         if os.environ.get('VERIF_DEBUG'):
             print(f'[debug] models + replay done at {time.time() - t0:.1f}s', file=sys.stderr)
